@@ -85,7 +85,7 @@ PROPS = {
     'C01': _p(240, 4000, [1, 2, 3, 9, 10]),
     'C02': _p(240, 4000, [1, 2, 3, 9, 10]),
     'C03': _p(240, 4000, [2, 3, 6, 7, 9, 10]),
-    'C04': _p(240, 4000, [2, 3, 5, 10]),
+    'C04': _p(240, 1200, [2, 3, 5, 10]),
     'C05': _p(240, 4000, [1, 3, 10], race=True, race_n=600),
     'C16': _p(240, 4000, [4, 5, 10]),
     'C17': _p(64, 1500, [7, 10]),
